@@ -19,6 +19,7 @@ import (
 	"time"
 
 	"vf/ev"
+	"vf/sip"
 )
 
 type c19Name struct {
@@ -62,7 +63,7 @@ type c19Worker struct {
 }
 
 type c19Stats struct {
-	steps, dispatchProbes, attribMember, attribRemoved, attribNever, keptOnFailure, emptiedOnFourth, membershipChanges int64
+	steps, dispatchProbes, attribMember, attribRemoved, attribNever, keptOnFailure, emptiedOnFourth, membershipChanges, lateAnswers int64
 }
 
 func (w *c19Worker) members() []string {
@@ -139,6 +140,99 @@ func (w *c19Worker) dispatchProbe(trace []string) bool {
 	sort.Strings(got)
 	if strings.Join(got, ",") != strings.Join(m, ",") {
 		w.run.Violation("dispatch targets differ from the resolved membership", map[string]any{"members": m, "k_dispatches_arrived_at": got, "outcomes": trace, "scheme": w.scheme})
+		return false
+	}
+	return true
+}
+
+// lateAnswerProbe: a call is dispatched to a member and left unanswered, the member then drops
+// out of the resolution, and only then does its 200 arrive (same transaction, from its own
+// address). The sender is no longer in the index: the dialog must follow the rotation - three
+// in-dialog requests reach current members, and not all the same one.
+func (w *c19Worker) lateAnswerProbe(trace []string) bool {
+	if w.scheme != "udp" {
+		return true
+	}
+	m := w.members()
+	if len(m) < 3 {
+		return true
+	}
+	id := fmt.Sprintf("w%dl%d", w.id, atomic.AddInt64(&w.probeNo, 1))
+	call := id + "-call"
+	w.fx.inject("127.1.0.1", 5060, w.request("INVITE", id, call, "ft", ""))
+	got := w.sinks.wait(id, 1, 2*time.Second)
+	raw := w.sinks.last(id)
+	w.sinks.forget(id)
+	w.sinks.forgetRaw(id)
+	if len(got) != 1 || raw == nil {
+		w.run.Violation("a new call was not dispatched although members are registered", map[string]any{"members": m, "outcomes": trace})
+		return false
+	}
+	x := got[0]
+	xip := x[:strings.LastIndexByte(x, ':')]
+	xport := w.port
+	fmt.Sscanf(x[strings.LastIndexByte(x, ':')+1:], "%d", &xport)
+	// the member drops out of the resolution of the name that brought it
+	for ni, n := range w.names {
+		if n.port != xport {
+			continue
+		}
+		var rest []string
+		found := false
+		for _, a := range n.addrs {
+			if a == xip {
+				found = true
+			} else {
+				rest = append(rest, a)
+			}
+		}
+		if !found {
+			continue
+		}
+		dynamicHostResolver.addressResolved(n.name, append([]string{}, rest...), nil)
+		n.apply(true, rest)
+		trace = append(trace, c19Outcome{ni, true, rest}.String(), "late 200 from "+x)
+		break
+	}
+	if !w.quiesce(trace) {
+		return false
+	}
+	// its answer, built from what it received
+	req, err := sip.Read(raw)
+	if err != nil {
+		return true
+	}
+	resp := &sip.Msg{Start: "SIP/2.0 200 OK"}
+	for _, h := range req.Headers {
+		switch sip.Canon(h.Name) {
+		case "via", "from", "call-id", "cseq":
+			resp.Headers = append(resp.Headers, h)
+		case "to":
+			resp.Headers = append(resp.Headers, sip.Header{Name: h.Name, Value: h.Value + ";tag=tt"})
+		}
+	}
+	resp.Headers = append(resp.Headers, sip.Header{Name: "Content-Length", Value: "0"})
+	w.fx.inject(xip, xport, resp.Bytes())
+	id2 := id + "q"
+	for i := 0; i < 3; i++ {
+		w.fx.inject("127.1.0.1", 5060, w.request("INFO", id2, call, "ft", "tt"))
+	}
+	cur := w.members()
+	arr := w.sinks.wait(id2, 3, 2*time.Second)
+	w.sinks.forget(id2)
+	atomic.AddInt64(&w.stats.lateAnswers, 1)
+	ok := len(arr) == 3 && !(arr[0] == arr[1] && arr[1] == arr[2])
+	for _, a := range arr {
+		in := false
+		for _, c := range cur {
+			if c == a {
+				in = true
+			}
+		}
+		ok = ok && in
+	}
+	if !ok {
+		w.run.Violation("the late answer of a member that has dropped out of the resolution was attributed to a backend", map[string]any{"answer_from": x, "members_now": cur, "in_dialog_requests_arrived_at": arr, "outcomes": trace, "scheme": w.scheme})
 		return false
 	}
 	return true
@@ -282,6 +376,9 @@ func (w *c19Worker) runSequence(seq []c19Outcome, probeEvery bool, rnd *rand.Ran
 			}
 		}
 	}
+	if ok && rnd != nil && (w.forceAttrib || rnd.Intn(3) == 0) {
+		ok = w.lateAnswerProbe(trace)
+	}
 	if ok && rnd != nil && (w.forceAttrib || rnd.Intn(4) == 0) {
 		// attribution probes: a member, a removed address, a never-member
 		m := w.members()
@@ -323,6 +420,12 @@ func (w *c19Worker) runSequence(seq []c19Outcome, probeEvery bool, rnd *rand.Ran
 }
 
 func newC19Worker(id int, scheme string, twoNames bool, run *ev.Run, stats *c19Stats) (*c19Worker, error) {
+	return newC19WorkerX(id, scheme, twoNames, false, run, stats)
+}
+
+// samePort: the two host names of the rotation use one port (their address sets must then be
+// disjoint at every moment; only scripted sequences are run on such a worker).
+func newC19WorkerX(id int, scheme string, twoNames, samePort bool, run *ev.Run, stats *c19Stats) (*c19Worker, error) {
 	w := &c19Worker{id: id, scheme: scheme, port: 7000, run: run, stats: stats, sinks: newVfSinks(), svc: fmt.Sprintf("svc%d.verif.test", id)}
 	if scheme == "tcp" {
 		w.port = 7001
@@ -331,7 +434,9 @@ func newC19Worker(id int, scheme string, twoNames bool, run *ev.Run, stats *c19S
 		// the second host name of a rotation uses another port; address 3 is in the pools of
 		// both names (one machine, two services)
 		ports := []int{w.port}
-		if twoNames && k >= 4 {
+		if samePort {
+			// every address listens on the one port
+		} else if twoNames && k >= 4 {
 			ports = []int{w.port + 2}
 		} else if twoNames && k == 3 {
 			ports = []int{w.port, w.port + 2}
@@ -351,7 +456,11 @@ func newC19Worker(id int, scheme string, twoNames bool, run *ev.Run, stats *c19S
 	}
 	ip := func(k int) string { return fmt.Sprintf("127.4.%d.%d", id, k) }
 	var backends []string
-	if twoNames {
+	if twoNames && samePort {
+		w.names = []*c19Name{
+			{name: fmt.Sprintf("h%da.verif.test", id), port: w.port, pool: []string{ip(1), ip(2), ip(3)}, ever: map[string]bool{}},
+			{name: fmt.Sprintf("h%db.verif.test", id), port: w.port, pool: []string{ip(3), ip(4), ip(5)}, ever: map[string]bool{}}}
+	} else if twoNames {
 		w.names = []*c19Name{
 			{name: fmt.Sprintf("h%da.verif.test", id), port: w.port, pool: []string{ip(1), ip(2), ip(3)}, ever: map[string]bool{}},
 			{name: fmt.Sprintf("h%db.verif.test", id), port: w.port + 2, pool: []string{ip(3), ip(4), ip(5)}, ever: map[string]bool{}}}
@@ -456,6 +565,28 @@ func TestVerifC19(t *testing.T) {
 				w.runSequence(seq, true, rnd)
 				atomic.AddInt64(&seqCount, 1)
 			}
+			// two names on one port, an address that moves from one name to the other (never held by
+			// both at once): whoever holds it last is the one whose resolution takes it away
+			if wi%4 == 0 {
+				w3, err := newC19WorkerX(wi+150, scheme, true, true, run, &stats)
+				if err != nil {
+					setupErr.Store(err.Error())
+					return
+				}
+				a, b := w3.names[0].pool, w3.names[1].pool
+				mv := a[2] // == b[0]
+				for si, seq := range [][]c19Outcome{
+					{{0, true, []string{a[1], mv}}, {1, true, []string{b[1]}}, {0, true, []string{a[1]}}, {1, true, []string{b[1], mv}}, {1, true, []string{b[1]}}},
+					{{0, true, []string{a[1], mv}}, {1, true, []string{b[1]}}, {0, true, []string{a[1]}}, {1, true, []string{b[1], mv}}, {1, false, nil}, {1, false, nil}, {1, false, nil}, {1, false, nil}},
+					{{1, true, []string{mv, b[2]}}, {0, true, []string{a[0]}}, {1, true, []string{b[2]}}, {0, true, []string{a[0], mv}}, {0, true, []string{a[0]}}},
+					{{1, true, []string{mv}}, {1, true, []string{}}, {0, true, []string{mv, a[0]}}, {0, true, []string{a[0]}}, {1, true, []string{mv}}, {1, true, []string{}}},
+				} {
+					w3.runSequence(seq, true, nil)
+					atomic.AddInt64(&seqCount, 1)
+					run.Eval(fmt.Sprintf("moving-address-w%d-%d", wi, si))
+				}
+				w3.sinks.close()
+			}
 			// random sequences over subsets of 5, half of the workers with two names
 			w2 := w
 			if wi%4 >= 2 {
@@ -525,6 +656,7 @@ func TestVerifC19(t *testing.T) {
 	run.Observe("exhaustive_sequences", seqCount)
 	run.Observe("exhaustive_max_length", maxLen)
 	run.Observe("outcome_steps", stats.steps)
+	run.Observe("late_answers_of_members_that_had_dropped_out", stats.lateAnswers)
 	run.Observe("dispatch_probes", stats.dispatchProbes)
 	run.Observe("attribution_probes_member", stats.attribMember)
 	run.Observe("attribution_probes_removed_address", stats.attribRemoved)
